@@ -168,6 +168,32 @@ func AnyBits(t *rapid.T, label string) *big.Int {
 	return v
 }
 
+// NumberSpelling draws the text of a number from a grammar of the spellings on which integer
+// parsers disagree: sign, radix prefix (0x/0b/0o and the bare leading zero that base-0 parsers read
+// as octal), digits from a chosen alphabet (decimal digits 8 and 9 after a leading zero are what
+// tells base 10 from base 0), digit separators, surrounding white space, fractions, exponents and
+// non-ASCII digits. Wherever the module reads a number out of a string, every reader must agree.
+func NumberSpelling(t *rapid.T, label string) string {
+	sign := pick(t, label+"/sign", []string{"", "", "", "", "-", "+"})
+	prefix := pick(t, label+"/prefix", []string{"", "", "", "0", "0", "00", "0x", "0X", "0b", "0o", "0O"})
+	alphabet := pick(t, label+"/alphabet", []string{"0123456789", "0123456789", "89", "01234567", "0123456789abcdefABCDEF", "01"})
+	n := 1 + uniform(t, label+"/len", 6)
+	var b strings.Builder
+	for i := 0; i < n; i++ {
+		b.WriteByte(alphabet[uniform(t, fmt.Sprintf("%s/d%d", label, i), len(alphabet))])
+		if i+1 < n && chance(t, fmt.Sprintf("%s/sep%d", label, i), 5) {
+			b.WriteByte('_')
+		}
+	}
+	digits := b.String()
+	if chance(t, label+"/wide", 4) {
+		digits = pick(t, label+"/widev", []string{"\u0663", "\uff11\uff10", "\u0668", "1\u0660"})
+	}
+	suffix := pick(t, label+"/suffix", []string{"", "", "", "", "", " ", "\n", ".0", ".5", "e2", "E2", "n", "_"})
+	lead := pick(t, label+"/lead", []string{"", "", "", "", "", " ", "\t"})
+	return lead + sign + prefix + digits + suffix
+}
+
 // ---------------------------------------------------------------------------------------------
 // Fees
 
